@@ -19,6 +19,7 @@ import csv
 import functools as ft
 import io
 import itertools as it
+import json
 import logging
 import os
 import pathlib
@@ -363,16 +364,21 @@ def write_scsv_header(stream, schema, comments=None):
     stream.write(f"  missing: '{missing}'{os.linesep}")
     stream.write("  fields:" + os.linesep)
 
+    def _scalar(value):
+        # Strings are written as double-quoted YAML scalars (a JSON string is valid
+        # YAML), otherwise values like '', '#', 'null', 'no' or 'a: b' don't survive.
+        return json.dumps(value, ensure_ascii=False) if isinstance(value, str) else value
+
     for field in schema["fields"]:
-        name = field["name"]
+        name = _scalar(field["name"])
         kind = field.get("type", _SCSV_DEFAULT_TYPE)
         stream.write(f"    - name: {name}{os.linesep}")
         stream.write(f"      type: {kind}{os.linesep}")
         if "unit" in field:
-            unit = field["unit"]
+            unit = _scalar(field["unit"])
             stream.write(f"      unit: {unit}{os.linesep}")
         if "fill" in field:
-            fill = field["fill"]
+            fill = _scalar(field["fill"])
             stream.write(f"      fill: {fill}{os.linesep}")
     stream.write("---" + os.linesep)
 
